@@ -125,6 +125,8 @@ def corrupt(path, c, d):
                 del ev["index"]
             ev.create_dataset("index", data=np.arange(n) + (
                 0 if n % 2 else 8))
+        elif c == "nopower":
+            del h5.attrs["fluorescence:laser 1 power"]
         elif c == "flmissing":
             del h5.attrs["fluorescence:sample rate"]
         elif c == "chcount":
